@@ -71,6 +71,7 @@ def main(argv):
     ctx.extra["tree_hash"] = extract.tree_hash(extract.repo_root())
     for c in configs:
         mod.run(ctx, crates[c])
-    if tier == "thorough" and hasattr(mod, "thorough"):
-        mod.thorough(ctx)
+    if tier == "thorough":
+        from . import mutants
+        mutants.run_corpus(ctx, prop)
     return framework.finish(ctx, mod.EXPLANATION, mod.UNDECIDED, seed)
